@@ -74,7 +74,7 @@ func TestC15(t *testing.T) {
 	c.EnumSeq(p, atoms, "", 1, La, judge)
 	vec := xssVectors()
 	p = c.rec.NewPart("vector_near_misses", "every XSS grammar vector and corpus input with '<' and '=' deleted, and with them replaced by '>' and '-'", false, true, "")
-	src := append(append([]string{}, vec...), corpus.HTML...)
+	src := append(append([]string{}, vec...), corp().HTML...)
 	c.ParRange(p, int64(len(src)), func(w *Worker, i int64) {
 		judge(w, c15Drop.Replace(src[i]))
 		judge(w, c15Strip.Replace(src[i]))
